@@ -304,8 +304,8 @@ def exec_raw(cache, seed, hops, payload, feats_extra=None):
 
 
 def build_items(spec_items, seed):
-    """advertised values -> (AD structures by the reference, objects/chunks for the library)"""
-    ref_chunks, lib_chunks, feats = [], [], {}
+    """advertised values -> (AD structures built by the reference, chunks built with the library's classes)"""
+    ref_chunks, lib_chunks = [], []
     for it in spec_items:
         kind = it[0]
         if kind == "battery":
@@ -319,7 +319,6 @@ def build_items(spec_items, seed):
             o = H.m_ble.TemperatureServiceData()
             o.data = k / 100.0
             lib_chunks.append(H.m_ble.chunk(o.buffer))
-            feats["sign"] = "neg" if k < 0 else ("zero" if k == 0 else "pos")
         elif kind == "url":
             _, scheme, parts, txp = it
             ref_chunks.append(ble.svc_url(ble.url_encode(scheme, parts), txp))
@@ -337,7 +336,7 @@ def build_items(spec_items, seed):
             lib_chunks.append(bytearray(c))
         else:
             raise HarnessError("unknown item %r" % (it,))
-    return ref_chunks, lib_chunks, feats
+    return ref_chunks, lib_chunks
 
 
 def exec_adv(cache, seed, case):
@@ -348,9 +347,8 @@ def exec_adv(cache, seed, case):
     nkind, nlen = case["name"]
     name_arg, name_raw = K.name_value(nkind, nlen, seed)
     pa = case["pa"]
-    ref_chunks, lib_chunks, feats = build_items(case["items"], seed)
-    feats = {}
-    feats.update({"tx": tx, "ch": b.ch, "name": "none" if name_raw is None else "set", "pa": "none" if pa is None else "set"})
+    ref_chunks, lib_chunks = build_items(case["items"], seed)
+    feats = {"tx": tx, "ch": b.ch, "name": "none" if name_raw is None else "set", "pa": "none" if pa is None else "set"}
     item0 = case["items"][0][0] if case["items"] else "none"
     opt = b""
     if pa is not None:
@@ -802,6 +800,9 @@ def run(tier, seed, rep, only=None):
     items.sort(key=lambda it: -(len(it[2]) if it[0] != "queue" else 4 ** (it[3] - 2) * 4))
     pmap(work, items, rep)
     K.collapse(rep, PID)
+    ordered = sorted(rep.outcomes.items())  # merge order of the workers must not show in the evidence
+    rep.outcomes.clear()
+    rep.outcomes.update(dict(ordered))
     del rep.samples[:]  # written-out cases chosen here, not by whichever worker finishes first
     for name in ("temperature", "url", "adversarial", "corrupt", "fields", "queue"):
         its = sorted((it for it in items if it[0] == name), key=lambda it: it[1])
